@@ -1,1 +1,4 @@
 // hook file for ntp-proto/src/time_types.rs: declares the per-property harness modules
+#[cfg(any(verif_all, verif_c32))]
+#[path = "/verif/harness/ntp-proto/c32.rs"]
+mod c32;
